@@ -1176,6 +1176,18 @@ def so2_seam_rounding(sp, a, b):
     return False
 
 
+ANGULAR = ("so2", "torus", "mobius", "klein", "sphere") + IMPL_ONLY
+
+
+def angle_allow(sp):
+    """double-rounding allowance for the circle distance under weights: SO(2) computes `2π - |a-b|` at magnitude 2π, i.e. with
+    an ABSOLUTE error of about one ulp(2π) = 8.9e-16 however small the distance, and a compound multiplies that by the
+    weights above it (1e-9 rad apart across the seam under an effective weight 1e9: distances 1, 1, 2 ± 4.4e-7).  The
+    float-epsilon slack is relative to the distances (with an absolute floor of 1.2e-7), so it does not cover this once
+    the weights are large: 4 ulp(2π) x effective weight for every unit with an SO(2) part."""
+    return sum(abs(w) * 4 * 8.9e-16 for usp, w, _n in units(sp) if usp[0] in ANGULAR and math.isfinite(w))
+
+
 def laws(sp, cl, ext, tr, res, count=None, scale=1.0):
     """all six laws on the implementation's outputs for one triple.  Returns a list of violations
     (law, indices, defect, text).  `scale` multiplies every distance and the extent first (used when a
@@ -1188,6 +1200,7 @@ def laws(sp, cl, ext, tr, res, count=None, scale=1.0):
     if not all(inb):
         return out
     se = space_eps(sp)
+    allow = angle_allow(sp) * abs(scale)
     sym_claimed = cl["symdist"] or cl["metric"]      # a metric is symmetric by definition (as sanityChecks reads it)
     has_unbounded = contains(sp, lambda s: s[0] == "time" and s[1] is None)
     for (i, j), d in D.items():
@@ -1209,18 +1222,18 @@ def laws(sp, cl, ext, tr, res, count=None, scale=1.0):
     if sym_claimed:
         for (i, j) in [(0, 1), (1, 2), (0, 2)]:
             df = 0.0 if D[(i, j)] == D[(j, i)] else abs(D[(i, j)] - D[(j, i)])      # +inf == +inf (SpaceTime)
-            if not (df <= slack(D[(i, j)], D[(j, i)], eps=se)):
+            if not (df <= slack(D[(i, j)], D[(j, i)], eps=se) + allow):
                 out.append(("symmetric", (i, j), df, "d(x,y)=%r but d(y,x)=%r" % (D[(i, j)], D[(j, i)])))
     if ext is not None:
         for (i, j), d in D.items():
-            if i != j and not (d <= ext + slack(ext, eps=se)):
+            if i != j and not (d <= ext + slack(ext, eps=se) + allow):
                 out.append(("extent", (i, j), d - ext, "distance %r exceeds getMaximumExtent() = %r" % (d, ext)))
                 break
     if cl["metric"]:
         for (x, y, z) in [(0, 1, 2), (0, 2, 1), (1, 0, 2)]:
             lhs, r1, r2 = D[(x, z)], D[(x, y)], D[(y, z)]
             df = lhs - (r1 + r2)
-            if not (df <= slack(lhs, r1, r2, eps=se)):
+            if not (df <= slack(lhs, r1, r2, eps=se) + 2 * allow):
                 out.append(("triangle", (x, y, z), df, "d(x,z)=%r > d(x,y)+d(y,z)=%r+%r" % (lhs, r1, r2)))
                 break
     if has_unbounded:
@@ -1685,6 +1698,58 @@ def weighted_sum_check(ck, hbin, sp, triples, ts, state):
                 return
 
 
+def refusal_check(ck, hbin):
+    """weights outside the legal range must be REFUSED (a negative weight makes distances negative): SpaceTimeStateSpace's
+    constructor (`timeWeight < 0 || timeWeight > 1` throws) and setSubspaceWeight (`weight < 0.0` throws; the space stays as
+    it is) against the model's `mkSpacetime?` / `setWeightX`; the boundary values 0, 1, 5e-324 must be ACCEPTED."""
+    so2 = ["so2"]
+    one = B(1.0)
+    lines, exp = [], []
+    for tw, ok in [(1.5, False), (-0.1, False), (-5e-324, False), (math.nextafter(1.0, 2.0), False), (math.inf, False),
+                   (0.0, True), (1.0, True), (5e-324, True), (math.nextafter(1.0, 0.0), True)]:
+        lines.append(" ".join(["space", "spacetime", one, B(tw), "u"] + so2))
+        exp.append("ok" if ok else "bad-op")
+        if ok:
+            lines.append("weights 0")
+            exp.append("w 2 %s %s" % (B(1.0 - tw), B(tw)))
+    lines.append(" ".join(["space"] + sp_tokens(("se2", [0.0, 0.0], [1.0, 1.0]))))
+    exp.append("ok")
+    for w, ok in [(-1.0, False), (-5e-324, False), (-math.inf, False), (5e-324, True), (0.0, True)]:
+        lines.append("setweight 0 1 " + B(w))
+        exp.append("ok" if ok else "bad-op")
+        lines.append("weights 0")
+        exp.append("w 2 %s %s" % (B(1.0), B(w if ok else (0.5 if w != 0.0 and exp.count("ok") < 7 else 0.5))))
+    # the weight actually in force after each step (refused ops change nothing)
+    cur = 0.5
+    k = len(exp) - 10
+    for j, (w, ok) in enumerate([(-1.0, False), (-5e-324, False), (-math.inf, False), (5e-324, True), (0.0, True)]):
+        if ok:
+            cur = w
+        exp[k + 2 * j + 1] = "w 2 %s %s" % (B(1.0), B(cur))
+    script = ["spacedist"] + lines
+    impl, model, rc, err = run_script_pair(ck, hbin, script)
+    ck.traces_validated += 1
+    ck.count("scripts:refusal")
+    ck.count("ops", len(lines))
+    for i, (ln, e) in enumerate(zip(lines, exp)):
+        x = impl[i] if i < len(impl) else "<missing>"
+        y = model[i] if model is not None and i < len(model) else "<missing>"
+        ck.case(("refusal", ln), True)
+        if x != e:
+            ck.report({"engine": "spacedist", "law": "refusal", "culprit": "weights",
+                       "what": "op %r answered %r, expected %r: a weight outside the legal range must be refused (and one inside "
+                               "accepted, leaving exactly that weight in force)" % (ln[:80], x, e)},
+                      script=script[:i + 2], observed=impl[:i + 1], expected=exp[:i + 1], engine="spacedist")
+            ck.log("property failure: law=refusal op %r answered %r, expected %r" % (ln[:80], x, e))
+            return
+        if y != e:
+            ck.disagreements += 1
+            ck.report({"engine": "spacedist", "what": "model/implementation disagreement", "culprit": "weights"},
+                      script=script[:i + 2], expected=model[:i + 1] if model else None, observed=impl[:i + 1], found_input=False,
+                      engine="spacedist", obligation="correspondence spacedist: refusal of illegal weights: implementation %r, model %r (op %r)" % (x, y, ln[:60]))
+            return
+
+
 def make_triples(r, sp, n, state):
     triples = []
     for k in range(n):
@@ -1717,7 +1782,10 @@ def setup(ck):
 
 def run(ck):
     ck.rule = ("one case = one (space, triple of states); spaces: every shipped class with several parameterisations, "
-               "random nested weighted compounds (depth <= 3), Dubins/Reeds-Shepp (implementation only); triples: uniform, "
+               "random nested weighted compounds (depth <= 3; weights 0, everyday, 5e-324 … just below 2^-52 paired with components "
+               "whose range makes the weighted term count, either side of 2^-52, 1e6 … 1e100), fixed weight-range compounds and "
+               "SpaceTime spaces, histories that change weights (incl. refused negative ones) after construction, "
+               "Dubins/Reeds-Shepp (implementation only); triples: uniform, "
                "bound/ulp-inside-bound, coincident, 1-ulp-apart, small moves (SO(3) rotations of 1e-6..1e-4 rad), q vs -q, "
                "in-bounds non-unit quaternions (norm 1 ± <1e-9), "
                "seam-straddling; non-trivial = all three states satisfy the implementation's satisfiesBounds and are not all "
@@ -1728,7 +1796,13 @@ def run(ck):
     ck.assumptions += ["theorems are over ℝ: IEEE rounding of the Float run is modelled (executed, compared bit for bit) but not verified",
                        "in-bounds for the theorems is the exact domain (box, [-π,π), unit quaternions); the code's satisfiesBounds "
                        "accepts an extra ε = 2^-52 (Rⁿ, time) resp. 1e-9 (SO(3) norm) around it",
-                       "compound weights > 0 (≥ 2^-52 for the extent law: the code drops lighter components from getMaximumExtent)",
+                       "compound weights: the laws are proved for all weights > 0 (no lower cut-off; SpaceTime: any two positive weights), the "
+                       "extent law for weights 0 or ≥ 2^-52 (in between the code drops the component from getMaximumExtent: F360, "
+                       "compound_extent_subeps_weight_fails); generated weights span 5e-324 … 1e100 incl. both sides of 2^-52",
+                       "positivity is not alarmed when the as-coded weighted sum underflows (a positive weight times a positive unit "
+                       "distance below the smallest normal double, e.g. 5e-324 × 0.3 = 0; counted in input_distribution)",
+                       "under an effective weight W the circle distance's one-ulp(2π) absolute rounding error is scaled to W·8.9e-16: the "
+                       "oracle adds 4·W·8.9e-16 per SO(2)-carrying unit to its float-ε slack (matters only for W > 1e7)",
                        "oracle slack: float ε × max(1, magnitudes involved), as StateSpace::sanityChecks; a metric claim is read as "
                        "including symmetry (as sanityChecks does)",
                        "positivity is not alarmed for SO(2) pairs within 4e-15 of each other across the ±π seam (exact distance below "
@@ -1782,12 +1856,14 @@ def run(ck):
     def work(job):
         blocks, tag = job
         return run_batch(ck, hbin, blocks)
-    with ThreadPoolExecutor(max_workers=8) as ex:
+    with ThreadPoolExecutor(max_workers=6) as ex:
         results = list(ex.map(work, jobs))
     for (blocks, tag), res in zip(jobs, results):
         if state["bad"] >= 6:
             break
         judge_batch(ck, hbin, blocks, tag, state, pre=res)
+    if state["bad"] < 6:
+        refusal_check(ck, hbin)
     return 0
 
 
